@@ -162,10 +162,13 @@ class Gen:
         for i, f in enumerate(fl):
             ft = f["type"]
             name = f["name"]
-            if isinstance(ft, dict):
+            if isinstance(ft, dict) and i > 0 and isinstance(fl[i - 1]["type"], dict):
+                # parallel arrays: a list directly behind a list shares its count (the nearest preceding non-list member)
+                n = self.node(ft, count=shared, depth=depth + 1)
+            elif isinstance(ft, dict):
                 # counted list: the count is the preceding primitive, already generated -> patch it
                 ctype = fl[i - 1]["type"]
-                c = self.list_count(ctype, depth, ft["list"])
+                c = shared = self.list_count(ctype, depth, ft["list"])
                 out[-1] = (fl[i - 1]["name"], ("prim", ctype, c))
                 vals[fl[i - 1]["name"]] = c
                 n = self.node(ft, count=c, depth=depth + 1)
